@@ -27,10 +27,10 @@ var typeNames = []string{"Item", "Point", "user_rec", "Detail", "Leaf", "Node2",
 var aliasNames = []string{"Score", "Label", "Counter", "Ratio"}
 var boundaryTags = []int{18999, 20000, 536870911, 65535, 1000, 2047, 2048, 16, 15}
 
-func P(p string) *Ty        { return &Ty{K: "prim", P: p} }
-func Arr(e *Ty) *Ty         { return &Ty{K: "array", E: e} }
-func Map(k, e *Ty) *Ty      { return &Ty{K: "map", Key: k, E: e} }
-func U(ref string) *Ty      { return &Ty{K: "user", Ref: ref} }
+func P(p string) *Ty   { return &Ty{K: "prim", P: p} }
+func Arr(e *Ty) *Ty    { return &Ty{K: "array", E: e} }
+func Map(k, e *Ty) *Ty { return &Ty{K: "map", Key: k, E: e} }
+func U(ref string) *Ty { return &Ty{K: "user", Ref: ref} }
 func F(tag int, name string, t *Ty) Fld {
 	return Fld{Name: name, Tag: strconv.Itoa(tag), T: t}
 }
@@ -254,7 +254,7 @@ func (g *gen) primFields(io *IO) []string {
 	}
 	var out []string
 	for _, f := range fs {
-		if f.Alts == nil && f.T.K == "prim" && f.T.P != "Bytes" {
+		if f.Alts == nil && f.Sec == "" && f.T.K == "prim" && f.T.P != "Bytes" {
 			out = append(out, f.Name)
 		}
 	}
@@ -293,6 +293,11 @@ func (g *gen) method(name string) Meth {
 		}
 	} else if g.r.Chance(7, 8) {
 		m.Payload = g.io(true)
+		if m.Payload.T == nil && g.r.Chance(1, 4) {
+			m.Security = vh.Pick(g.r, secKinds)
+			m.Payload.Fields = insertSec(m.Payload.Fields, m.Security, g.r.Intn(len(m.Payload.Fields)+1), g.r.Bool(), 900+g.r.Intn(50))
+			g.f("security-" + m.Security)
+		}
 		if ps := g.primFields(m.Payload); len(ps) > 0 && g.r.Chance(1, 3) {
 			m.Metadata, _ = g.subset(ps, 1, 2)
 			if len(m.Metadata) > 0 {
@@ -410,6 +415,17 @@ func Covering() []*Design {
 	out = append(out, one("cover:metadata", Meth{Payload: pl, Metadata: []string{"key", "limit"}, Result: pl, Headers: []string{"key"}, Trailers: []string{"flag"}}))
 	out = append(out, one("cover:metadata-all", Meth{Payload: obj, Metadata: []string{"a", "b"}, Result: obj, Headers: []string{"a"}, Trailers: []string{"b"}}))
 	out = append(out, one("cover:metadata-user-type", Meth{Payload: &IO{T: U("Item")}, Metadata: []string{"name"}, Result: &IO{T: U("Item")}, Headers: []string{"id"}}, item))
+	// security schemes: credentials first / in the middle / last, declared with and without a field number
+	for ki, kind := range secKinds {
+		for pos := 0; pos <= 2; pos++ {
+			fs := []Fld{Rq(F(1, "aa", P("Int"))), F(2, "bb", P("String"))}
+			out = append(out, one("cover:security", Meth{Security: kind, Payload: &IO{Fields: insertSec(fs, kind, pos, (ki+pos)%2 == 0, 5)}, Result: obj}))
+		}
+	}
+	out = append(out, one("cover:security-user-type", Meth{Security: "jwt", Payload: &IO{T: U("Cred")}, Result: obj},
+		UT{Name: "Cred", Fields: insertSec([]Fld{F(1, "aa", P("Int")), F(2, "bb", P("String"))}, "jwt", 1, false, 0)}))
+	out = append(out, one("cover:security-with-metadata", Meth{Security: "apikey", Payload: &IO{Fields: insertSec([]Fld{F(1, "aa", P("Int")), F(2, "bb", P("String"))}, "apikey", 0, true, 9)},
+		Metadata: []string{"bb"}, Result: obj}))
 	// boundary tags and names
 	out = append(out, one("cover:boundary-tags", Meth{Payload: &IO{Fields: []Fld{F(536870911, "max", P("Int")), F(18999, "below", P("Int")),
 		F(20000, "above", P("Int")), F(1, "one", P("Int"))}}}))
@@ -465,20 +481,70 @@ func Witnesses() []Witness {
 	}
 }
 
+var secKinds = []string{"basic", "apikey", "jwt", "oauth2"}
+
+// secAttrs gives the credential attributes a scheme kind needs.
+func secAttrs(kind string, tagged bool, tag int) []Fld {
+	mk := func(sec, name string, t int) Fld {
+		f := Fld{Name: name, Sec: sec, T: P("String"), Tag: strconv.Itoa(t)}
+		if !tagged {
+			f.Tag, f.NoTag = "", true
+		}
+		return f
+	}
+	switch kind {
+	case "basic":
+		return []Fld{mk("username", "sec_user", tag), mk("password", "sec_pass", tag+1)}
+	case "apikey":
+		return []Fld{mk("apikey", "sec_key", tag)}
+	case "jwt":
+		return []Fld{mk("token", "sec_tok", tag)}
+	}
+	return []Fld{mk("accesstoken", "sec_acc", tag)}
+}
+
+// insertSec puts the credential attributes of the scheme at position pos.
+func insertSec(fs []Fld, kind string, pos int, tagged bool, tag int) []Fld {
+	out := append([]Fld{}, fs[:pos]...)
+	out = append(out, secAttrs(kind, tagged, tag)...)
+	return append(out, fs[pos:]...)
+}
+
 // MustReject: designs whose tags goa's validation has to refuse (the only scope it
 // validates: an unmapped top-level payload / result). If one is accepted the oracle
 // runs on what is emitted for it.
 func MustReject() []Witness {
 	pay := func(fs ...Fld) Meth { return Meth{Payload: &IO{Fields: fs}} }
 	res := func(fs ...Fld) Meth { return Meth{Result: &IO{Fields: fs}} }
-	return []Witness{
+	var sec []Witness
+	for _, kind := range secKinds {
+		for pos := 0; pos <= 3; pos++ {
+			for defect := 0; defect < 6; defect++ {
+				fs := []Fld{F(1, "aa", P("Int")), F(2, "bb", P("String")), F(3, "cc", P("Int"))}
+				switch defect {
+				case 0:
+					fs[1].Tag = "1" // aa / bb
+				case 1:
+					fs[2].Tag = "2" // bb / cc
+				case 2:
+					fs[2].Tag = "1" // aa / cc
+				default:
+					fs[defect-3].Tag, fs[defect-3].NoTag = "", true
+				}
+				name := fmt.Sprintf("security-%s-at-%d-defect-%d", kind, pos, defect)
+				sec = append(sec, Witness{Name: name, D: one("reject:"+name, Meth{Security: kind,
+					Payload: &IO{Fields: insertSec(fs, kind, pos, defect%2 == 0, 7)}})})
+			}
+		}
+	}
+	return append(sec, []Witness{
 		{Name: "dup-tag-payload", D: one("reject:dup-tag-payload", pay(F(1, "x", P("Int")), F(2, "y", P("String")), F(2, "z", P("Int"))))},
 		{Name: "dup-tag-result", D: one("reject:dup-tag-result", res(F(7, "x", P("Int")), F(7, "z", P("Int"))))},
 		{Name: "untagged-payload", D: one("reject:untagged-payload", pay(F(1, "x", P("Int")), Fld{Name: "w", NoTag: true, T: P("Int")}))},
 		{Name: "untagged-result", D: one("reject:untagged-result", res(Fld{Name: "w", NoTag: true, T: P("Int")}))},
 		{Name: "dup-tag-user-type-payload", D: one("reject:dup-tag-user-type-payload", Meth{Payload: &IO{T: U("T")}},
 			UT{Name: "T", Fields: []Fld{F(3, "a", P("Int")), F(3, "b", P("Int"))}})},
-	}
+	}...)
 }
 
 // hostile names: letters in both cases, digits (never leading), separators goa's
